@@ -106,7 +106,7 @@ PROPS["C08"] = dict(
     level_note=SYMEX_NOTE + "That the kernel enforces a limit it was given is outside (contract).",
     explanation="PrepareRLimit/getRlimit, Tracer.checkUsage, ptraceHandle.handle (signal stops), unshare.Run usage check executed symbolically; oracle in harness.",
     bounds={"RLimits": "all 2^(7*64+1) records", "rusage": "sec < 2^33, usec < 10^6, maxrss < 2^53", "stop signals": "1..64 except SIGTRAP"},
-    outside=["kernel enforcement of rlimits", "output volumes beyond 6 bytes / caps beyond 2 (a drain threshold such as 1 MiB is not reachable within the bound)"],
+    outside=["kernel enforcement of rlimits", "output volumes between 7 bytes and 3 MiB other than the one bulk run; time-based drain limits"],
     assumptions=[],
     harnesses=[
         dict(pkg="./pkg/rlimit", run="^VerifC08_PrepareRLimit$", replay="native", reach=["configured", "unconfigured"]),
@@ -158,7 +158,7 @@ PROPS["C03"] = dict(
     level_note=SYMEX_NOTE + "K-PTRACE (stops, wait4, ESRCH on non-stopped tracees, TRACEFORK auto-attach) is a contract model of ptrace(2); that Linux honours it is outside.",
     explanation="trace()/handle()/handleTrap() run on symbolic event streams from the K-PTRACE model with a monitor; see harness zz_verif_c03.go.",
     bounds={"events": "<=4 events quick (2 processes), <=6 events thorough (3 processes)", "verdict": "any 64-bit TraceAction", "schedules": "canceller goroutine interleavings, preemption bound 2"},
-    outside=["the return value seen by the program (rax) is set by runner/ptrace.softBanSyscall: checked in C15 handler harness", "kernel ptrace semantics themselves"],
+    outside=["registers other than orig_rax / rax", "kernel ptrace semantics themselves"],
     assumptions=["K-PTRACE contract"],
     harnesses=[
         dict(pkg=PT, run="^VerifC03_Trace_Quick$", tiers=["quick", "thorough"], replay="model", reach=["ban-enforced", "allow-resumed", "kill-verdict"], timeout=900),
@@ -267,7 +267,7 @@ PROPS["C10"] = dict(
     explanation="container.{Ping,Open,Delete,Symlink,Reset,Execve,waitForDone,...} and containerServer.{serve,handle*,...} executed as threads over a model link.",
     bounds={"history length": "1 operation + final Ping (quick); 2 operations (thorough)", "delay bound": "1 (quick) / 2 (thorough)", "transport loss": "at most one, at any send/receive",
             "Execve": "argv empty/non-empty, lookup fails, clone fails, child step fails, sync callback nil/ok/refusing, sync before/after exec, exec fails after sync, program ends with any status"},
-    outside=["gob stream state", "real timing of the ping deadline"],
+    outside=["gob's real encoding (C19 models the stream abstractly)", "real timing of the ping deadline (the deadline may expire whenever it is armed while a program runs)"],
     assumptions=["C07 contract of forkexec.Start", "K-SOCK SEQPACKET contract"],
     harnesses=[
         dict(pkg=CT, run="^VerifC10_Ops1$", tiers=["quick", "thorough"], replay="model", preempt=1, timeout=1500, reach=["final-ping", "exec-fails-after-sync", "start-fails-early", "sync-refused", "lookup-fails", "program-runs"]),
@@ -328,6 +328,7 @@ PROPS["C12"] = dict(
         dict(pkg=US, run="^VerifC11_UnshareCancel$", tiers=["quick", "thorough"], replay="model", preempt=2, reach=["context-outlives-run"]),
         # the real Builder.Build with every later step failing: a failed Build destroys what it started
         dict(pkg=CT, run="^VerifC12_BuildFailure$", tiers=["quick", "thorough"], replay="model", preempt=0, reach=["build-failed", "failed-after-start", "built"]),
+        dict(pkg="./pkg/unixsocket", run="^VerifC19_Constructors$", tiers=["quick", "thorough"], replay="model", preempt=0, reach=["failed", "built"]),
         dict(pkg=PT, run="^VerifC03_MultiProc$", tiers=["quick", "thorough"], replay="model", timeout=900),
     ],
 )
@@ -381,7 +382,7 @@ PROPS["C17"] = dict(
     technique="bounded model checking (delay-bounded interleavings) of concurrent calls on the real endpoints",
     explanation="two concurrent host calls over the link model; K-PTRACE monitor on wait4/kill targets.",
     bounds={"threads": "2 callers at delay bound 2, 3 callers at delay bound 1 (quick) / 2 (thorough); not 16", "delay bound": "see threads"},
-    outside=["3+-way interactions, OS-thread scheduling, plain-memory data races", "descriptor creators that bypass ForkLock"],
+    outside=["4+-way interactions, OS-thread scheduling, plain-memory data races", "descriptor creators that bypass ForkLock"],
     assumptions=[],
     harnesses=[
         dict(pkg=CT, run="^VerifC17_TwoCallers$", replay="model", preempt=2, timeout=1500, reach=["both-returned"]),
@@ -423,7 +424,7 @@ PROPS["C19"] = dict(
     explanation="(*Socket).SendMsg/RecvMsg/parseMsg/closeRights and container.(*socket).SendMsg executed symbolically over the socket model.",
     bounds={"payload / buffer": "0..5 bytes each (relative order is what matters)", "rights": "0..3", "control buffer": "4096 or 24/32/40 bytes", "hostile peer": "<=2 control messages of kind rights/cred/foreign",
             "framed length": "any 0..40000 (classes 0, small, cap-1, cap, cap+1, large)"},
-    outside=["gob's stateful type stream across messages", "socketpair constructors' error paths (not built)"],
+    outside=["gob's real encoding (the stream is an abstract model: type description once, values after it)", "net.FileConn / os.NewFile internals (stubs with the documented ownership rules)"],
     assumptions=["K-SOCK SEQPACKET contract incl. MSG_CMSG_CLOEXEC"],
     harnesses=[
         dict(pkg="./pkg/unixsocket", run="^VerifC19_RoundTrip$", replay="model", preempt=0, reach=["delivered", "rejected"]),
@@ -431,6 +432,8 @@ PROPS["C19"] = dict(
         dict(pkg=CT, run="^VerifC19_FramedCap$", replay="model", preempt=0, reach=["too-large", "fits"]),
         # sequences of three framed messages with failing / oversized sends on both real endpoints over an abstract gob stream (type description once, values after it)
         dict(pkg=CT, run="^VerifC19_FramedSequence$", replay="model", preempt=0, reach=["send-rejected", "delivered", "receive-rejected"]),
+        # constructors: every step failing, each descriptor closed exactly once
+        dict(pkg="./pkg/unixsocket", run="^VerifC19_Constructors$", replay="model", preempt=0, reach=["failed", "built"]),
     ],
 )
 
